@@ -278,3 +278,123 @@ pub fn is_prefix(a: &[Tok], b: &[Tok]) -> bool {
 pub fn marking_nontrivial(m: &[TPath]) -> bool {
     m.iter().any(|p| p.len() > 1 || matches!(p.last(), Some(Tok::Idx(_))))
 }
+
+/// Documents beyond the sizes the small random generator reaches: long arrays (indices with two and three digits), wide
+/// objects, hundreds of disclosures (more than 255), long names and values, deep nesting within the supported depth.
+/// `variant` selects the shape; the marking comes in any valid order.
+pub fn large_claims_and_marking(r: &mut Rng, variant: usize) -> (Value, Vec<TPath>) {
+    let k = |s: &str| Tok::Key(s.to_string());
+    let (claims, marks): (Value, Vec<TPath>) = match variant % 8 {
+        0 => {
+            // one long array, elements marked at one-, two- and three-digit indices
+            let n = 20 + r.below(281);
+            let arr: Vec<Value> = (0..n).map(|i| if i % 7 == 0 { json!({"i": i}) } else { json!(format!("e{}", i)) }).collect();
+            let mut marks: Vec<TPath> = Vec::new();
+            for i in 0..n {
+                if i == 9 || i == 10 || i == 11 || i == 99 || i == 100 || i == 101 || i + 1 == n || r.chance(1, 9) {
+                    marks.push(vec![k("list"), Tok::Idx(i)]);
+                }
+            }
+            (json!({"list": arr, "keep": true}), marks)
+        }
+        1 => {
+            // a wide object, most members marked (more than 255 disclosures in every third case)
+            let n = if r.chance(1, 3) { 260 + r.below(60) } else { 40 + r.below(80) };
+            let mut m = Map::new();
+            let mut marks = Vec::new();
+            for i in 0..n {
+                let name = format!("m{:03}", i);
+                m.insert(name.clone(), json!(i));
+                if i % 5 != 4 {
+                    marks.push(vec![Tok::Key(name)]);
+                }
+            }
+            (Value::Object(m), marks)
+        }
+        2 => {
+            // long names and values
+            let long_name = "n".repeat(200 + r.below(400));
+            let long_value = "v\u{e9}".repeat(1000 + r.below(3000));
+            let claims = json!({long_name.clone(): {"inner": long_value.clone(), "k": 1}, "short": long_value, "z": [long_name.clone()]});
+            (claims, vec![vec![Tok::Key(long_name.clone()), k("inner")], vec![Tok::Key(long_name)], vec![k("short")], vec![k("z"), Tok::Idx(0)]])
+        }
+        3 => {
+            // deep nesting, well inside the supported depth, with marks at several levels
+            let depth = 30 + r.below(25);
+            let mut v = json!({"leaf": 1, "other": [1, 2, 3]});
+            for level in (0..depth).rev() {
+                v = if level % 3 == 2 { json!([v, level]) } else { json!({"d": v, "w": level}) };
+            }
+            let claims = json!({"root": v});
+            let mut path: TPath = vec![k("root")];
+            let mut marks = Vec::new();
+            let mut cur = &claims["root"];
+            loop {
+                match cur {
+                    Value::Object(o) if o.contains_key("d") => { path.push(k("d")); cur = &o["d"]; }
+                    Value::Array(a) if !a.is_empty() && (a[0].is_object() || a[0].is_array()) => { path.push(Tok::Idx(0)); cur = &a[0]; }
+                    _ => break,
+                }
+                if r.chance(1, 6) {
+                    marks.push(path.clone());
+                }
+            }
+            let mut leaf = path.clone();
+            leaf.push(k("leaf"));
+            marks.push(leaf);
+            marks.reverse(); // deepest first
+            (claims, marks)
+        }
+        4 => {
+            // many arrays of moderate length inside a wide object: many nested digest lists and placeholders
+            let mut m = Map::new();
+            let mut marks = Vec::new();
+            for i in 0..30 {
+                let name = format!("a{:02}", i);
+                let len = 12 + r.below(6);
+                m.insert(name.clone(), Value::Array((0..len).map(|j| json!({"j": j, "t": "x"})).collect()));
+                for j in 0..len {
+                    if r.chance(1, 3) {
+                        marks.push(vec![Tok::Key(name.clone()), Tok::Idx(j), k("t")]);
+                    }
+                    if j >= 10 && r.chance(1, 2) {
+                        marks.push(vec![Tok::Key(name.clone()), Tok::Idx(j)]);
+                    }
+                }
+            }
+            (Value::Object(m), marks)
+        }
+        6 => {
+            // a huge array: indices with up to five digits, beyond 9999 (the model's cost grows quadratically with the length:
+            // 66000 elements, tried first, took ten minutes per case)
+            let n = 10_002 + r.below(30);
+            let arr: Vec<Value> = (0..n).map(|i| json!(i % 10)).collect();
+            let marks: Vec<TPath> = [99usize, 100, 999, 1_000, 9_999, 10_000, n - 1].iter().map(|i| vec![k("items"), Tok::Idx(*i)]).collect();
+            (json!({"items": arr, "keep": 1}), marks)
+        }
+        7 => {
+            // a NESTED wide object (its digest list is never reshuffled): 257 and more members, all marked; in every second
+            // case the object itself is disclosable too
+            let n = 257 + r.below(80);
+            let mut m = Map::new();
+            let mut marks = Vec::new();
+            for i in 0..n {
+                let name = format!("f{:03}", i);
+                m.insert(name.clone(), json!(i));
+                marks.push(vec![k("rec"), Tok::Key(name)]);
+            }
+            if r.chance(1, 2) {
+                marks.push(vec![k("rec")]);
+            }
+            (json!({"rec": Value::Object(m), "id": 7}), marks)
+        }
+        _ => {
+            // numbers near the limits of the integer types, next to ordinary claims
+            let claims = json!({"u64max": u64::MAX, "i64min": i64::MIN, "i64max": i64::MAX, "u32max": u32::MAX, "big": 1u64 << 53, "bigp1": (1u64 << 53) + 1,
+                                "list": [u64::MAX, i64::MIN, 0, -1, 255, 256, 65535, 65536]});
+            (claims.clone(), vec![vec![k("u64max")], vec![k("i64min")], vec![k("bigp1")], vec![k("list"), Tok::Idx(0)], vec![k("list"), Tok::Idx(5)], vec![k("list"), Tok::Idx(7)]])
+        }
+    };
+    let marks = reorder_marking(r, marks);
+    (claims, marks)
+}
